@@ -54,7 +54,7 @@ func main() {
 		fmt.Fprintln(os.Stderr, "vtypes:", err)
 		os.Exit(2)
 	}
-	nmaps, nchans := 0, 0
+	nmaps, nchans, nfiles := 0, 0, 0
 	for _, p := range pkgs {
 		if len(p.Errors) > 0 {
 			for _, e := range p.Errors {
@@ -73,6 +73,26 @@ func main() {
 			var edits []edit
 			seq := 0
 			ast.Inspect(f, func(n ast.Node) bool {
+				// (*os.File).Read / Close anywhere in the package go through the seam
+				// (the syntactic pass only knows the field name inotifyFile)
+				if ce, ok := n.(*ast.CallExpr); ok {
+					if sel, ok := ce.Fun.(*ast.SelectorExpr); ok && (sel.Sel.Name == "Read" || sel.Sel.Name == "Close") {
+						if t := p.TypesInfo.TypeOf(sel.X); t != nil && t.String() == "*os.File" {
+							recv := string(src[off(sel.X.Pos()):off(sel.X.End())])
+							if sel.Sel.Name == "Read" && len(ce.Args) == 1 {
+								arg := string(src[off(ce.Args[0].Pos()):off(ce.Args[0].End())])
+								edits = append(edits, edit{off(ce.Pos()), off(ce.End()), fmt.Sprintf("vsys.Read(%s, %s)", recv, arg)})
+								nfiles++
+								return false
+							}
+							if sel.Sel.Name == "Close" && len(ce.Args) == 0 {
+								edits = append(edits, edit{off(ce.Pos()), off(ce.End()), fmt.Sprintf("vsys.CloseFile(%s)", recv)})
+								nfiles++
+								return false
+							}
+						}
+					}
+				}
 				rs, ok := n.(*ast.RangeStmt)
 				if !ok {
 					return true
@@ -159,5 +179,5 @@ func main() {
 			}
 		}
 	}
-	fmt.Printf("vtypes: %d map ranges ordered, %d channel ranges rewritten\n", nmaps, nchans)
+	fmt.Printf("vtypes: %d map ranges ordered, %d channel ranges rewritten, %d os.File calls routed through the seam\n", nmaps, nchans, nfiles)
 }
